@@ -306,7 +306,7 @@ W_HANDOFF = {20: 6, 21: 6, 1: 5, 3: 4, 4: 4, 5: 5, 6: 3, 10: 3, 11: 4, 14: 5, 30
              40: 3, 41: 3, 42: 3, 60: 5, 61: 5, 62: 6, 63: 4, 65: 4, 66: 4, 7: 3}
 
 
-def window_variants(scs, res, per_scenario=60, rnd=None):
+def window_variants(scs, res, per_scenario=60, rnd=None, prefer=None):
     """Window exploration (two preemptions): one actor is held back at one of its schedule points until ANOTHER actor has arrived at
     one of its later schedule points, then let go - 'A pauses before this line until B is in the middle of that function'.
     Variants are sampled from the baseline run's record, hand-off points (locks, triggers, Store, sweep) preferred."""
@@ -322,6 +322,27 @@ def window_variants(scs, res, per_scenario=60, rnd=None):
             continue
         seen = set()
         tries = 0
+
+        def add(an, ag, un, ug):
+            key = (an, ag, un, ug)
+            if key in seen:
+                return
+            seen.add(key)
+            v = dict(s)
+            v['id'] = '%s~%s@%s~until~%s@%s' % (s['id'], an, ag, un, ug)
+            v['strategy'], v['plan'] = s.get('strategy', 'random'), []
+            pt, occ = ag.split('#'); upt, uocc = ug.split('#')
+            v['stallname'], v['stallpt'], v['stallocc'] = an, int(pt), int(occ)
+            v['untilname'], v['untilpt'], v['untilocc'] = un, int(upt), int(uocc)
+            out.append(v)
+        if prefer:
+            # every pair (A at one of these points, the named actor at any later point of its own): the hand-offs the family is about
+            apts, uname = prefer
+            for i, an, ag in gl:
+                if int(ag.split('#')[0]) in apts and an != uname:
+                    for j, n2, g2 in gl:
+                        if j > i and n2 == uname and len(seen) < per_scenario * 3:
+                            add(an, ag, n2, g2)
         while len(seen) < per_scenario and tries < per_scenario * 6:
             tries += 1
             i, an, ag = gl[rnd.randrange(len(gl))]
@@ -333,17 +354,7 @@ def window_variants(scs, res, per_scenario=60, rnd=None):
             j, un, ug = later[rnd.randrange(len(later))]
             if rnd.random() > (W_HANDOFF.get(int(ug.split('#')[0]), 1) + 2) / 8.0:
                 continue
-            key = (an, ag, un, ug)
-            if key in seen:
-                continue
-            seen.add(key)
-            v = dict(s)
-            v['id'] = '%s~%s@%s~until~%s@%s' % (s['id'], an, ag, un, ug)
-            v['strategy'], v['plan'] = s.get('strategy', 'random'), []
-            pt, occ = ag.split('#'); upt, uocc = ug.split('#')
-            v['stallname'], v['stallpt'], v['stallocc'] = an, int(pt), int(occ)
-            v['untilname'], v['untilpt'], v['untilocc'] = un, int(upt), int(uocc)
-            out.append(v)
+            add(an, ag, un, ug)
     return out
 
 
